@@ -46,6 +46,9 @@ def make_kdata(case, rng, n_k0=None, n_coils=3):
     for rep, k2, k1 in itertools.product(range(case['other']), range(case['k2']), range(case['k1'])):
         a = {'labels': {'k1': k1, 'k2': k2, 'repetition': rep}, 'id': ident, 'flags': 0}
         a['traj'] = np.stack([ident + 0.25 * np.arange(n_k0), -ident + 0 * np.arange(n_k0), 0.5 * ident + 0 * np.arange(n_k0)], -1).astype(np.float32)
+        # every readout has its own orientation; odd readouts have a left-handed (read, phase, slice) frame
+        ang = 0.1 * ident
+        a['dirs'] = ((math.cos(ang), math.sin(ang), 0.0), (-math.sin(ang), math.cos(ang), 0.0), (0.0, 0.0, -1.0 if ident % 2 else 1.0))
         acqs.append(a)
         ident += 1
     rng.shuffle(acqs)
@@ -85,9 +88,16 @@ def run(case, drv) -> Outcome:
     kd = make_kdata(case, rng)
     d0, _, _ = grids(kd)
     model_grid = d0.tolist()
+    # orientation of every readout as loaded, by identity
+    ids0 = kd.header.acq_info.scan_counter.flatten().tolist()
+    om0 = kd.header.acq_info.orientation.as_matrix().reshape(-1, 3, 3).double()
+    orient_by_id = {int(i): om0[j] for j, i in enumerate(ids0)}
+    det0 = {i: float(torch.linalg.det(m)) for i, m in orient_by_id.items()}
     used = {'repetition'}
     viol = None
     corr = None
+    if any(abs(det0[i] - (-1.0 if i % 2 else 1.0)) > 1e-4 for i in det0):
+        viol = {'signature': 'kdata:load-orientation', 'what': f'other {case["other"]} k2 {case["k2"]} k1 {case["k1"]}: the loaded orientation of a readout does not have the handedness of its (read, phase, slice) directions'}
     log = []
     ops_model = []
     value_changed = False
@@ -227,6 +237,12 @@ def run(case, drv) -> Outcome:
             break
         if not torch.equal(hg, tg):
             viol = viol or v(f'{op}-pairing', 'header entries and trajectory are no longer paired position by position')
+        st_o, om = call(lambda: kd.header.acq_info.orientation.as_matrix().reshape(-1, 3, 3).double())
+        if st_o == 'ok' and om.shape[0] == hg.numel():
+            want_o = torch.stack([orient_by_id[int(i)] for i in hg.flatten()])
+            if not torch.allclose(om, want_o, atol=1e-5):
+                bad = int(((om - want_o).abs().amax((-1, -2)) > 1e-5).sum())
+                viol = viol or v(f'{op}-orientation', f'the per-readout orientation of {bad} readouts is no longer the one they were acquired with (e.g. a left-handed frame became right-handed)')
         if not value_changed and not torch.equal(dg, hg):
             viol = viol or v(f'{op}-pairing', 'data and header entries are no longer paired position by position')
         m = drv.call({'op': 'kdata_ops', 'grid': model_grid, 'ops': ops_model})
